@@ -28,16 +28,14 @@ package webrtc
 //@ field PeerConnection.isNegotiationNeeded* props C04 writers (*PeerConnection).negotiationNeededOp, (*PeerConnection).setDescription
 //@ field PeerConnection.updateNegotiationNeededFlagOnEmptyChain* props C04 writers (*PeerConnection).onNegotiationNeeded, (*PeerConnection).negotiationNeededOp, (*operations).start, (*API).NewPeerConnection, newOperations
 
-// (The three flags are separate atomic.Bool cells allocated by NewPeerConnection: stated as a
-// precondition of each unit.)
+// (pcValid: the three flags are separate atomic.Bool cells, the queue has its list.)
 // The update step (W3C 4.7.3.2), run on the operations queue. The handler is invoked only
 // when, in program order before the call, the connection was not closed, the queue was
 // empty, the signaling state was stable, and [[NegotiationNeeded]] was false and has just
 // been set; at most once per run; never while the flag is already set.
 //@ func (*PeerConnection).negotiationNeededOp
 //@ props C04
-//@ requires pcValid(pc) && pc.ops.ops != nil && ghost(qhead) <= ghost(qtail)
-//@ requires !sameobj(pc.isClosed, pc.isNegotiationNeeded) && !sameobj(pc.isClosed, pc.updateNegotiationNeededFlagOnEmptyChain) && !sameobj(pc.isNegotiationNeeded, pc.updateNegotiationNeededFlagOnEmptyChain)
+//@ requires pcValid(pc) && ghost(qhead) <= ghost(qtail)
 //@ atcall localfn (*PeerConnection).negotiationNeededOp.handler assert !pc.isClosed.Load()
 //@ atcall localfn (*PeerConnection).negotiationNeededOp.handler assert pc.signalingState == SignalingStateStable
 //@ atcall localfn (*PeerConnection).negotiationNeededOp.handler assert ghost(qtail) == ghost(qhead)
@@ -52,8 +50,7 @@ package webrtc
 // otherwise the update step is queued (it does not run, and nothing fires, in this call).
 //@ func (*PeerConnection).onNegotiationNeeded
 //@ props C04
-//@ requires pcValid(pc) && pc.ops.ops != nil && ghost(qhead) <= ghost(qtail) && ghost(qtail) < 1<<62
-//@ requires !sameobj(pc.isClosed, pc.isNegotiationNeeded) && !sameobj(pc.isClosed, pc.updateNegotiationNeededFlagOnEmptyChain) && !sameobj(pc.isNegotiationNeeded, pc.updateNegotiationNeededFlagOnEmptyChain)
+//@ requires pcValid(pc) && ghost(qhead) <= ghost(qtail) && ghost(qtail) < 1<<62
 //@ atcall (*operations).Enqueue assert ghost(qtail) == ghost(qhead)
 //@ ensures old(ghost(qtail)) != old(ghost(qhead)) ==> pc.updateNegotiationNeededFlagOnEmptyChain.Load() && ghost(qtail) == old(ghost(qtail))
 //@ ensures pc.isNegotiationNeeded.Load() == old(pc.isNegotiationNeeded.Load()) && pc.signalingState == old(pc.signalingState)
@@ -62,8 +59,7 @@ package webrtc
 //@ func (*PeerConnection).setDescription #negflag
 //@ props C04
 //@ nosafety
-//@ requires pcValid(pc) && sd != nil && pc.ops.ops != nil
-//@ requires !sameobj(pc.isClosed, pc.isNegotiationNeeded) && !sameobj(pc.isClosed, pc.updateNegotiationNeededFlagOnEmptyChain) && !sameobj(pc.isNegotiationNeeded, pc.updateNegotiationNeededFlagOnEmptyChain)
+//@ requires pcValid(pc) && sd != nil && ghost(qhead) <= ghost(qtail) && ghost(qtail) < 1<<62
 //@ requires validSignalingState(pc.signalingState) && specDescInv(pc)
 //@ ensures pc.isNegotiationNeeded.Load() != old(pc.isNegotiationNeeded.Load()) ==> err == nil && pc.signalingState == SignalingStateStable && !pc.isNegotiationNeeded.Load()
 //@ ensures err == nil && pc.signalingState == SignalingStateStable ==> !pc.isNegotiationNeeded.Load()
